@@ -3,8 +3,8 @@ pid=sys.argv[1].lower()
 import json
 rnd = sys.argv[2] if len(sys.argv) > 2 else '2'
 mut = 'mut%s' % rnd
-used = json.load(open('/verif/tools/used_sites.json')).get(pid.upper(), []) if rnd in ('3','4') else []
-extra = ('\n\nThis is in fact a LATER round (third or fourth). The following sites (file :: enclosing function) have ALREADY been used for this property in earlier rounds; choose DIFFERENT functions and different kinds of mistakes:\n' + '\n'.join('  - ' + u for u in used) + '\nAlso consider: code shared with other features (helpers in domain.py, sampler_base.py, user_fun.py, points.py, model.py), 3-D domains (sphere, TrimeshPolyhedron), products of domains with external parameters, adaptive samplers driven by conditions, function sets and their sums, DeepONet/FNO variants, data loaders with unusual sizes, anything stateful across calls.\n') if rnd in ('3','4') else ''
+used = json.load(open('/verif/tools/used_sites.json')).get(pid.upper(), []) if rnd in ('3','4','5') else []
+extra = ('\n\nThis is in fact a LATER round (third or fourth). The following sites (file :: enclosing function) have ALREADY been used for this property in earlier rounds; choose DIFFERENT functions and different kinds of mistakes:\n' + '\n'.join('  - ' + u for u in used) + '\nAlso consider: code shared with other features (helpers in domain.py, sampler_base.py, user_fun.py, points.py, model.py), 3-D domains (sphere, TrimeshPolyhedron), products of domains with external parameters, adaptive samplers driven by conditions, function sets and their sums, DeepONet/FNO variants, data loaders with unusual sizes, anything stateful across calls.\n') if rnd in ('3','4','5') else ''
 for l in open('/verif/properties.jsonl'):
     p=json.loads(l)
     if p['id'].lower()==pid:
